@@ -302,6 +302,24 @@ def proof_gate(prop_id, proof_files):
     return res
 
 
+COQCHK_REPORT = os.path.join(VERIF, "coqchk_report.json")
+
+
+def run_coqchk(props=None, timeout=3000):
+    """Independent re-check of the compiled development with coqchk (and its axiom summary).
+    props=None: every props/*.vo; otherwise the listed ids. Returns dict(ok, axioms, summary)."""
+    ok, log = build_coq(target=None if props is None else " ".join("props/%s.vo" % p for p in props))
+    ids = props or sorted(f[:-2] for f in os.listdir(os.path.join(COQ, "props")) if f.endswith(".v"))
+    mods = ["Got.props." + i for i in ids]
+    rc, out = sh(["timeout", str(timeout), "coqchk", "-silent", "-o", "-Q", ".", "Got"] + mods, cwd=COQ, timeout=timeout + 60)
+    m = re.search(r"CONTEXT SUMMARY\s*=+(.*)", out, re.S)
+    summary = re.sub(r"\s+", " ", m.group(1)).strip() if m else out[-600:]
+    ax = re.search(r"\* Axioms:(.*?)(?:\* Constants|$)", summary)
+    axioms = ax.group(1).strip() if ax else "?"
+    return dict(ok=(rc == 0), axioms=axioms, summary=summary, modules=ids, coq_sources_hash=coq_hash(),
+                cmd="coqchk -silent -o -Q . Got " + " ".join(mods))
+
+
 # ---------------------------------------------------------------- running both sides
 def build_go(pkg, tags="verif", race=False, out_name=None):
     """go build of a harness command against /repo's working tree. Returns path or raises."""
@@ -520,6 +538,24 @@ class Check:
         cov["monitor_failures"] = nmon
         cov["known_findings_hit"] = {k: h["n"] for k, h in self.known_hits.items()}
         cov["coq_sources_hash"] = coq_hash()
+        if self.tier == "thorough" and self.proof and self.proof.get("ok"):
+            # independent re-check with coqchk: the committed whole-development report if it is for these
+            # very sources, otherwise a run for this property's file (and everything it depends on)
+            rep = None
+            try:
+                if os.path.exists(COQCHK_REPORT):
+                    rep = json.load(open(COQCHK_REPORT))
+                    if rep.get("coq_sources_hash") != coq_hash():
+                        rep = None
+                if rep is None:
+                    rep = run_coqchk([self.id])
+                cov["coqchk"] = dict(ok=rep["ok"], axioms=rep["axioms"], cmd=rep["cmd"][:300], summary=rep["summary"][:600])
+                if not rep["ok"]:
+                    self.proof_failures.append("coqchk rejects the compiled development: " + rep["summary"][:300])
+                    violations = 1
+                    print("VIOLATION property=%s replay=%s no-failing-input-found" % (self.id, COQCHK_REPORT))
+            except Exception as ex:
+                cov["coqchk"] = dict(ok=None, error=repr(ex)[:300])
         if extra:
             cov.update(extra)
         ev = dict(property_id=self.id, tier=self.tier, seed=self.seed, level="proof", coverage=cov,
